@@ -148,8 +148,11 @@ def run(ctx):
     tbad = judge_threads(threads)
     if tbad:
         fails.append((("threads", trounds, tthreads), tbad, threads, tres["stderr"][-800:]))
-    ires = runner.run_script(INTERRUPTED, vlib.REPO, timeout=120, spare_trackers=True)
-    igot = runner.last_json(ires)
+    for _attempt in range(3):          # the scenario must really have hit the window (the interrupt surfaced out of ensure_running)
+        ires = runner.run_script(INTERRUPTED, vlib.REPO, timeout=120, spare_trackers=True)
+        igot = runner.last_json(ires)
+        if igot is None or igot.get("interrupt") == "KeyboardInterrupt":
+            break
     if igot is None:
         fails.append((("interrupted",), ["interrupted-launch scenario did not complete"], None, ires["stderr"][-800:]))
     elif igot["next_op"] != "ok" or not igot["tracker_alive"]:
